@@ -1,6 +1,9 @@
 package main
 
 import (
+	"fmt"
+	"strings"
+
 	"golang.org/x/tools/go/ssa"
 )
 
@@ -39,5 +42,162 @@ func init() {
 			xv = x
 		}
 		return e.forkAlts(st, xv, []alt{{okb, good}, {ts.Not(okb), bad}})
+	}
+}
+
+func init() {
+	// sort.Strings on a slice of concrete-length strings: insertion sort whose comparisons are
+	// decided (forking when both orders are feasible) before the slice is written.
+	models["sort.Strings"] = func(e *Engine, st *State, x *ssa.Call, args []Value) bool {
+		sl := args[0].(*SliceV)
+		if sl.Obj == nil {
+			return true
+		}
+		elems := append([]Value(nil), e.sliceElems(st, sl)...)
+		for i := 1; i < len(elems); i++ {
+			for j := i; j > 0; j-- {
+				if !e.decide(st, e.strLess(elems[j].(*StrV), elems[j-1].(*StrV))) {
+					break
+				}
+				elems[j], elems[j-1] = elems[j-1], elems[j]
+			}
+		}
+		off := e.mustInt(st, sl.Off, "sort offset")
+		old := st.heap[sl.Obj.ID].(*ArrayV)
+		na := &ArrayV{E: append([]Value(nil), old.E...)}
+		copy(na.E[off:], elems)
+		st.heap[sl.Obj.ID] = na
+		return true
+	}
+}
+
+// BloomV models *bloom.BloomFilter as a set with one-sided error: answers are whatever the
+// harness declared with vpBloomSet (or an unconstrained value for undeclared keys); Adds recorded.
+type BloomV struct {
+	ID   int
+	N    *Term // NewWithEstimates n
+	P    *Term // NewWithEstimates p
+	Adds []*StrV
+}
+
+// RegexpV models *regexp.Regexp: MatchString is an uninterpreted predicate per (pattern, text).
+type RegexpV struct {
+	Pat *StrV
+	ID  int
+}
+
+func strSig(s *StrV) string {
+	if s.Doc != nil {
+		return fmt.Sprintf("doc%d", s.Doc.Obj.ID)
+	}
+	var sb strings.Builder
+	for _, b := range s.B {
+		fmt.Fprintf(&sb, "%d.", b.id)
+	}
+	return sb.String()
+}
+
+func (e *Engine) bloomOf(st *State, v Value) (*BloomV, *PtrV) {
+	p := v.(*PtrV)
+	if p.Obj == nil {
+		return nil, p
+	}
+	b, _ := st.heap[p.Obj.ID].(*BloomV)
+	return b, p
+}
+
+func init() {
+	harnessModels["vpNewBloom"] = func(e *Engine, st *State, x *ssa.Call, args []Value) bool {
+		e.nextObj++
+		o := e.newObj(st, nil, &BloomV{ID: e.nextObj})
+		setRes(st, x, &PtrV{Obj: o})
+		return true
+	}
+	// vpBloomSet(f, key, answer): TestString(key) on f returns answer
+	harnessModels["vpBloomSet"] = func(e *Engine, st *State, x *ssa.Call, args []Value) bool {
+		_, p := e.bloomOf(st, args[0])
+		k := fmt.Sprintf("bloom:%d:%s", p.Obj.ID, strSig(args[1].(*StrV)))
+		nb := make(map[string]*Term, len(st.bloom)+1)
+		for kk, v := range st.bloom {
+			nb[kk] = v
+		}
+		nb[k] = args[2].(*Term)
+		st.bloom = nb
+		return true
+	}
+	test := func(e *Engine, st *State, x *ssa.Call, args []Value) bool {
+		b, p := e.bloomOf(st, args[0])
+		if p.Obj == nil {
+			e.violation(st, "PANIC", "TestString on nil bloom filter")
+			return false
+		}
+		key := args[1].(*StrV)
+		k := fmt.Sprintf("bloom:%d:%s", p.Obj.ID, strSig(key))
+		if v, ok := st.bloom[k]; ok {
+			setRes(st, x, v)
+			return true
+		}
+		// an added element always tests positive; anything else is arbitrary (false positives)
+		ans := e.ts.Var("bloomtest", BoolSort)
+		if b != nil {
+			for _, a := range b.Adds {
+				if len(a.B) == len(key.B) {
+					ans = e.ts.Or(ans, e.strEq(a, key))
+				}
+			}
+		}
+		setRes(st, x, ans)
+		return true
+	}
+	models["(*github.com/bits-and-blooms/bloom/v3.BloomFilter).TestString"] = test
+	models["github.com/bits-and-blooms/bloom/v3.NewWithEstimates"] = func(e *Engine, st *State, x *ssa.Call, args []Value) bool {
+		e.nextObj++
+		o := e.newObj(st, nil, &BloomV{ID: e.nextObj, N: args[0].(*Term), P: args[1].(*Term)})
+		setRes(st, x, &PtrV{Obj: o})
+		return true
+	}
+	models["(*github.com/bits-and-blooms/bloom/v3.BloomFilter).AddString"] = func(e *Engine, st *State, x *ssa.Call, args []Value) bool {
+		b, p := e.bloomOf(st, args[0])
+		if b == nil {
+			e.violation(st, "PANIC", "AddString on nil bloom filter")
+			return false
+		}
+		nb := &BloomV{ID: b.ID, N: b.N, P: b.P, Adds: append(append([]*StrV(nil), b.Adds...), args[1].(*StrV))}
+		st.heap[p.Obj.ID] = nb
+		setRes(st, x, p)
+		return true
+	}
+	models["regexp.Compile"] = func(e *Engine, st *State, x *ssa.Call, args []Value) bool {
+		okb := e.newNondet(st, "bool", BoolSort)
+		e.nextObj++
+		o := e.newObj(st, nil, &RegexpV{Pat: args[0].(*StrV), ID: e.nextObj})
+		good := TupleV{&PtrV{Obj: o}, nilErr()}
+		bad := TupleV{&PtrV{}, newErr("regexp: syntax error")}
+		var xv ssa.Value
+		if x != nil {
+			xv = x
+		}
+		return e.forkAlts(st, xv, []alt{{okb, good}, {e.ts.Not(okb), bad}})
+	}
+	models["(*regexp.Regexp).MatchString"] = func(e *Engine, st *State, x *ssa.Call, args []Value) bool {
+		p := args[0].(*PtrV)
+		if p.Obj == nil {
+			e.violation(st, "PANIC", "MatchString on nil *Regexp")
+			return false
+		}
+		r := st.heap[p.Obj.ID].(*RegexpV)
+		k := fmt.Sprintf("re:%s:%s", strSig(r.Pat), strSig(args[1].(*StrV)))
+		v, ok := e.reMemo[k]
+		if !ok {
+			v = e.ts.Var("rematch", BoolSort)
+			e.reMemo[k] = v
+		}
+		setRes(st, x, v)
+		return true
+	}
+	models["github.com/danthegoodman1/bloomsearch.isBasicWhitespaceLowerTokenizer"] = func(e *Engine, st *State, x *ssa.Call, args []Value) bool {
+		fv, _ := args[0].(*FuncV)
+		setRes(st, x, e.ts.Bool(fv != nil && fv.Fn.Name() == "BasicWhitespaceLowerTokenizer" && len(fv.Bind) == 0))
+		return true
 	}
 }
